@@ -35,6 +35,8 @@ BASE = [
     ("timing", "qubit q ; duration d = 10 ns ; delay [ d ] q ; delay [ 1 ] q ;"),
     ("annotation", "int a ; @note~ x y\n a = 1 ; pragma~ keep this\n a = 2 ;"),
     ("bits", 'bit [ 4 ] c = "0110" ; bit b = c [ 0 ] ;'),
+    ("trailing-annotation", "qubit q ; int a ; @keep~ this\n"),
+    ("trailing-pragma", "int a ; pragma~ last line\n"),
     ("scope-fault", "if ( true ) { qubit q ; gate g x { } } return ;"),
 ]
 NAMES_RE = re.compile(r"^[a-zA-Z]$")
